@@ -39,7 +39,7 @@ structure Tbl where
   sks : List (Nat × Entry) := []
 
 def isSketchCmd (c : String) : Bool :=
-  c ∈ ["M", "mv", "ml", "mi", "K", "add", "q", "qs", "obs", "merge", "copy", "clear", "rew", "encchk", "dec", "decm", "same", "chmap", "pbchk", "frompb", "fe"]
+  c ∈ ["M", "mv", "ml", "mi", "K", "add", "q", "qs", "obs", "merge", "copy", "clear", "rew", "encchk", "dec", "decm", "same", "chmap", "pbchk", "frompb", "fe", "xpanic"]
 
 def parseMKind : String → Option MKind
   | "log" => some .log
@@ -371,6 +371,10 @@ def run (t : Tbl) (cmd : String) (args : List String) : Tbl × String :=
         | some l => (t, toString (if k = 0 then l.length else min k l.length))
         | none => (t, "panic")
     | none => (t, "bad-op")
+  | "xpanic", [h, _] =>
+    -- the generator saw the implementation panic in a read-only operation (encode / protobuf /
+    -- iteration) on this sketch: the model never does
+    withSk t h fun _ _ => (t, "ok")
   | "encchk", [h, om, bytes] =>
     match parseBytes bytes with
     | some bs => withSk t h fun _ e => (t, encChk e (om == "1") bs)
